@@ -21,7 +21,8 @@ Inductive pc :=
 (* SQLObject.get after a miss; CacheSet.put / CacheFactory.put; finishPut *)
 | M951 | M954 | SP311 | P152 | P153 | M956 | SQ314 | Q162
 (* _SO_finishCreate; CacheSet.created; CacheFactory.created *)
-| C1397 | C1400 | SK317 | SK318 | SK319 | SK320 | SK322 | K171 | K172 | K177 | K178 | K180 | K181
+| C1397 | C1400 | SK317 | SK318 | SK319 | SK320 | SK322 | K171 | K172 | K177 | K178 | K180
+| K181a | K181t | K181 | K181r
 (* CacheFactory.cull *)
 | U192 | U193 | U195 | U196 | U197 | U198 | U200 | U201 | U202 | U204 | U205 | U209 | U210 | U214 | U216
 (* SQLObject.expire; CacheSet.expire; CacheFactory.expire *)
@@ -30,7 +31,8 @@ Inductive pc :=
 (* CacheSet.weakrefAll; CacheFactory.expireAll *)
 | SW364 | SW367 | SW368 | A248 | A250 | A251 | A252 | A253 | A254 | A256
 (* sqlmeta.expireAll; CacheSet.getAll; CacheFactory.getAll *)
-| Z681 | Z682 | Z683 | SL375 | SL380 | SL381 | SL383 | L275 | L276 | L279 | L280 | L281 | L282.
+| Z681 | Z682 | Z683 | SL375 | SL380 | SL381 | SL383
+| L272 | L273 | L275 | L276 | L279 | L280 | L280n | L281 | L283 | L282.
 
 Definition pc_eq_dec : forall a b : pc, {a = b} + {a <> b}.
 Proof. decide equality. Defined.
@@ -116,8 +118,8 @@ Record thread := {
   t_mex : bool;                 (* inside sqlmeta.expireAll *)
   t_mexl : bool;                (* sqlmeta.expireAll: getAll has returned, the loop runs *)
   t_iter : option (nat * nat * nat);   (* dict iterator: position, size at creation, version at creation *)
-  t_all : list (option nat);    (* getAll `all`: strong references (None: a dead weakref was appended) *)
-  t_items : list (option nat);  (* sqlmeta.expireAll: items still to expire *)
+  t_all : list nat;             (* getAll `all`: strong references *)
+  t_items : list nat;           (* sqlmeta.expireAll: items still to expire *)
   t_exc : option exn            (* exception in flight while a finally clause runs *)
 }.
 
@@ -187,12 +189,12 @@ Definition set_iter (th : thread) (it : option (nat * nat * nat)) : thread :=
      t_self := t_self th; t_key := t_key th; t_keys := t_keys th; t_cobj := t_cobj th; t_cret := t_cret th;
      t_mex := t_mex th; t_mexl := t_mexl th; t_iter := it; t_all := t_all th; t_items := t_items th;
      t_exc := t_exc th |}.
-Definition set_all (th : thread) (l : list (option nat)) : thread :=
+Definition set_all (th : thread) (l : list nat) : thread :=
   {| t_pc := t_pc th; t_prog := t_prog th; t_slots := t_slots th; t_id := t_id th; t_val := t_val th; t_ep := t_ep th;
      t_self := t_self th; t_key := t_key th; t_keys := t_keys th; t_cobj := t_cobj th; t_cret := t_cret th;
      t_mex := t_mex th; t_mexl := t_mexl th; t_iter := t_iter th; t_all := l; t_items := t_items th;
      t_exc := t_exc th |}.
-Definition set_items (th : thread) (l : list (option nat)) : thread :=
+Definition set_items (th : thread) (l : list nat) : thread :=
   {| t_pc := t_pc th; t_prog := t_prog th; t_slots := t_slots th; t_id := t_id th; t_val := t_val th; t_ep := t_ep th;
      t_self := t_self th; t_key := t_key th; t_keys := t_keys th; t_cobj := t_cobj th; t_cret := t_cret th;
      t_mex := t_mex th; t_mexl := t_mexl th; t_iter := t_iter th; t_all := t_all th; t_items := l;
@@ -297,7 +299,7 @@ Definition res_refs (o : nat) (r : res) : bool :=
   match r with RObj o' _ _ => Nat.eqb o' o | _ => false end.
 (* the references a thread holds: its frame locals and the results it keeps *)
 Definition thread_refs (th : thread) (o : nat) : bool :=
-  omem o [t_val th; t_self th] || omem o (t_all th) || existsb (res_refs o) (t_slots th).
+  omem o [t_val th; t_self th] || existsb (Nat.eqb o) (t_all th) || existsb (res_refs o) (t_slots th).
 Fixpoint any_thread (f : nat -> thread) (n : nat) (o : nat) : bool :=
   match n with
   | O => false
@@ -350,7 +352,7 @@ Definition xall_return (s : state) (t : nat) (th : thread) : option state :=
 Definition mex_next (s : state) (t : nat) (th : thread) : option state :=
   match t_items th with
   | [] => Some (put_thr s t (finish th RNone))
-  | x :: r => goto s t (set_self (set_items th r) x) Z683
+  | x :: r => goto s t (set_self (set_items th r) (Some x)) Z683
   end.
 
 Definition self_of (th : thread) : nat := match t_self th with Some o => o | None => 0 end.
@@ -481,9 +483,13 @@ Definition step (s : state) (t : nat) : option state :=
   | K172 => goto s t th (if Z.ltb (s_freq s) (s_cc s) then K177 else K180)
   | K177 => goto (with_cc s 0%Z) t th K178
   | K178 => goto s t (set_cret th RetCreated) U192
-  | K180 => goto (with_cc s (s_cc s + 1)%Z) t th K181
-  | K181 => Some (put_thr (with_strong s (dset (s_strong s) i (self_of th))) t
-                    (finish th (RObj (self_of th) i (s_epoch s i))))
+  | K180 => goto (with_cc s (s_cc s + 1)%Z) t th K181a
+  | K181a => acquire s t th K181t
+  | K181t => goto s t th K181
+  | K181 => goto (with_strong s (dset (s_strong s) i (self_of th))) t
+                  (set_val th (Some (self_of th)) (s_epoch s i)) K181r
+  | K181r => release s t th
+               (finish th (match t_val th with Some o => RObj o i (t_ep th) | None => RNone end))
   (* ---- cull *)
   | U192 => acquire s t th U193
   | U193 => goto s t th U195
@@ -517,7 +523,7 @@ Definition step (s : state) (t : nat) : option state :=
             | None => crash s t th KeyErr
             end
   | U214 => goto (with_co s (Nat.modulo (S (s_co s)) (s_frac s))) t th U216
-  | U216 => release s t th (set_pc (set_cobj th None) (match t_cret th with RetGet => F104 | RetCreated => K181 end))
+  | U216 => release s t th (set_pc (set_cobj th None) (match t_cret th with RetGet => F104 | RetCreated => K181a end))
   (* ---- expire *)
   | X1070 => if o_expired (s_heap s (self_of th)) then expire_return s t th else goto s t th X1072
   | X1072 => match o_wlock (s_heap s (self_of th)) with
@@ -575,16 +581,15 @@ Definition step (s : state) (t : nat) : option state :=
   (* ---- sqlmeta.expireAll *)
   | Z681 => goto s t (set_mex th true false) SW364
   | Z682 => if t_mexl th then mex_next s t th else goto s t th SL375
-  | Z683 => match t_self th with
-            | Some _ => goto s t th X1070
-            | None => Some (put_thr s t (finish th (RExc AttrErr)))
-            end
+  | Z683 => goto s t th X1070
   | SL375 => goto s t th SL380
   | SL380 => goto s t th (if s_present s then SL381 else SL383)
-  | SL381 => goto s t th L275
+  | SL381 => goto s t th L272
   | SL383 => Some (put_thr s t (finish th RNone))
+  | L272 => acquire s t th L273
+  | L273 => goto s t th L275
   | L275 => goto s t th L276
-  | L276 => goto s t (set_iter (set_all th (map (fun o => Some o) (dvals (s_strong s)))) None) L279
+  | L276 => goto s t (set_iter (set_all th (dvals (s_strong s))) None) L279
   | L279 => match iter_next (t_iter th) (length (s_weak s)) (s_wver s) with
             | Some (inl pos) =>
                 match nth_error (s_weak s) pos with
@@ -592,19 +597,24 @@ Definition step (s : state) (t : nat) : option state :=
                     goto s t (set_iter (set_cobj th (Some o)) (iter_adv (t_iter th) (length (s_weak s)) (s_wver s))) L280
                 | None => crash s t th KeyErr
                 end
-            | Some (inr false) => goto s t (set_iter th None) L282
-            | Some (inr true) => Some (put_thr s t (finish th (RExc RuntimeErr)))
+            | Some (inr false) => goto s t (set_iter th None) L283
+            | Some (inr true) => goto s t (set_exc (set_iter th None) (Some RuntimeErr)) L283
             | None => unmodelled s t th
             end
   | L280 => match t_cobj th with
-            | Some o => goto s t th (if aliveb s o then L281 else L279)
+            | Some o => goto s t (set_val th (deref s o) (t_ep th)) L280n
             | None => crash s t th KeyErr
             end
-  | L281 => match t_cobj th with
-            | Some o => goto s t (set_all th (t_all th ++ [deref s o])) L279
+  | L280n => goto s t th (match t_val th with Some _ => L281 | None => L279 end)
+  | L281 => match t_val th with
+            | Some o => goto s t (set_all th (t_all th ++ [o])) L279
             | None => crash s t th KeyErr
             end
-  | L282 => mex_next s t (set_cobj (set_items (set_mex th true true) (t_all th)) None)
+  | L283 => match t_exc th with
+            | Some x => release s t th (finish th (RExc x))
+            | None => release s t th (set_pc th L282)
+            end
+  | L282 => mex_next s t (set_val (set_cobj (set_items (set_mex th true true) (t_all th)) None) None 0)
   end.
 
 (* ------------------------------------------------------------------ initial state, runs *)
